@@ -73,7 +73,9 @@ def cases(rng, tier):
         for k in (2, -2, 3, -1):
             out.append({"a": a, "dtype": "int64", "derived": {"t": "slice", "s": [None, None, k]}})
         out.append({"a": a, "dtype": "int64", "derived": {"t": "binop", "b": [rng.randrange(3) for _ in a], "f": rng.choice(["add", "maximum", "multiply", "equal"])}})
-        out.append({"a": a, "dtype": "int64", "derived": {"t": "concat", "b": [a[-1]] + [rng.randrange(3) for _ in range(rng.randint(0, 3))]}})
+        out.append({"a": a, "dtype": "int64", "derived": {"t": "concat", "b": [a[-1]] + [rng.randrange(3) for _ in range(rng.randint(0, 3))], "extra": rng.choice([0, 0, 1, 2, 3])}})
+        # float operands with the SAME run boundaries whose sum is NaN in some runs (inf + -inf) and a number in others
+        out.append({"a": a, "dtype": rng.choice(["float64", "float32"]), "derived": {"t": "binop", "b": [1 if c == 0 else 0 if c == 1 else 2 for c in a], "f": rng.choice(["add", "add", "multiply", "maximum"])}})
         # a ufunc of two operands DERIVED FROM THE SAME array (they share their run boundaries): (x > 0) & (x < 2), x - x, ...
         out.append({"a": a, "dtype": "int64", "derived": {"t": "same", "f": rng.choice(["and_cmp", "sub_self", "mul_shift", "max_neg"])}})
     for _ in range(300 if tier == "quick" else 3000):
@@ -86,7 +88,7 @@ def cases(rng, tier):
         elif t == "binop":
             d = {"t": "binop", "b": (rlgen.array_random(rng, n) * n)[:n], "f": rng.choice(["add", "maximum", "multiply", "equal", "bitwise_and"])}
         else:
-            d = {"t": "concat", "b": rlgen.array_random(rng, 10)}
+            d = {"t": "concat", "b": rlgen.array_random(rng, 10), "extra": rng.choice([0, 1, 2, 3])}
         dtd = rng.choice(["int64", "int32", "uint8", "bool", "float64", "float32"])
         if d.get("f") == "bitwise_and" and dtd.startswith("float"):
             d["f"] = "subtract"         # inf - inf, (-inf) - (-inf): NaN runs next to each other
@@ -141,7 +143,9 @@ def _derived(p, arr):
     if d["t"] == "binop":
         with np.errstate(all="ignore"):
             return getattr(np, d["f"])(arr, other), True
-    return np.concatenate([arr, other]), False
+    n_extra = d.get("extra", 0)       # further pieces: the first array again, the second again, ...
+    pieces = [arr, other] + [(arr if k % 2 == 0 else other) for k in range(n_extra)]
+    return np.concatenate(pieces), False
 
 
 def _run_derived(p):
@@ -158,7 +162,15 @@ def _run_derived(p):
         else:
             other = RunLengthArray.from_array(rlgen.to_values(d["b"], p["dtype"], _dmode(p)))
             with np.errstate(all="ignore"):
-                res = getattr(np, d["f"])(r, other) if d["t"] == "binop" else np.concatenate([r, other])
+                if d["t"] == "binop":
+                    res = getattr(np, d["f"])(r, other)
+                else:
+                    # two or more pieces, some of them THE SAME OBJECT more than once; afterwards every piece still decodes as before
+                    pieces = [r, other] + [(r if k % 2 == 0 else other) for k in range(d.get("extra", 0))]
+                    res = np.concatenate(pieces)
+                    if not (np.array_equal(r.to_array(), arr, equal_nan=True) and len(r) == len(arr)
+                            and np.array_equal(other.to_array(), rlgen.to_values(d["b"], p["dtype"], _dmode(p)), equal_nan=True)):
+                        raise AssertionError("np.concatenate changed one of its operands")
         dense, joined = _derived(p, arr)
         if len(dense) == 0:
             return {"k": "obs", "canonical": canon(True)}          # the empty result has no canonical form to judge
